@@ -29,6 +29,7 @@ def run(run):
         seeds += [[a, b] for a in range(k) for b in range(k)] if k <= (9 if run.tier == 'quick' else 16) else \
             [[rng.randrange(k), rng.randrange(k)] for _ in range(60)]
         seeds += [[]] + [[rng.randrange(k) for _ in range(rng.randint(2, 6))] for _ in range(8)]
+        seeds += [[a] * rng.randint(2, 3) for a in rng.sample(range(k), min(k, 3))]      # one concept, repeated
         reqs, cases = [], []
         nt = gen.nontrivial(tab)
         for s in seeds:
@@ -37,7 +38,22 @@ def run(run):
                 r = '%s %s' % (kind, ms)
                 what = 'concept[%d].%s()' % (s[0], kind) if len(s) == 1 and rng.random() < .5 else 'lattice.%s_union(%r)' % (kind, s)
                 with guard(run, what, [pc.line, r]):
-                    if what.startswith('concept'):
+                    if what.startswith('concept') and rng.random() < .3:
+                        # two traversals of the same lattice alive at once, advanced in lockstep, plus a nested one
+                        it1, it2 = getattr(cs[s[0]], kind)(), getattr(cs[s[0]], kind)()
+                        out, twin = [], []
+                        for x, y in zip(it1, it2):
+                            out.append(x)
+                            twin.append(y)
+                            if len(out) == 2:
+                                list(getattr(x, kind)())
+                        if [id(x) for x in out] != [id(y) for y in twin]:
+                            run.fail(what + ': two simultaneous traversals differ', [c.index for c in out], [c.index for c in twin], [pc.line, r], extra)
+                        rest = list(it1)
+                        if rest:
+                            run.fail(what + ': traversal longer than its simultaneous twin', [c.index for c in rest], None, [pc.line, r], extra)
+                        run.count('simultaneous traversals')
+                    elif what.startswith('concept'):
                         out = list(getattr(cs[s[0]], kind)())
                     elif len(s) % 3 == 2:
                         # the collection is read when the method is called: later edits of the caller's list do not matter
